@@ -98,7 +98,8 @@ def install_closure_lists(reg: Registry):
         y = A('y!ge2')
         v = z3.Const('v!ge2', Val)
         return [('fresh', z3.And(R >= o.alloc, R < h.alloc, h.cls(R) == CLS_LIST)),
-                ('members-are-ancestors', FA([v], z3.Implies(h.bag(R, v) > 0, z3.And(is_VRef(v), ANC(c.self, v_a(v)))), [h.bag(R, v)])),
+                ('members-are-ancestors', FA([v], z3.Implies(h.bag(R, v) > 0, z3.And(is_VRef(v), ANC(c.self, v_a(v)), v_a(v) >= 0, v_a(v) < spec_heap(o.schema).alloc)),
+                                             [h.bag(R, v)])),
                 ('every-ancestor-is-a-member', FA([y], z3.Implies(ANC(c.self, y), h.cnt(R, y) > 0), [ANC(c.self, y)])),
                 ('self-first', h.at(R, 0) == VRef(c.self))] + old_region_unchanged_all(o, h)
 
@@ -154,13 +155,36 @@ def install_subassets(reg: Registry):
         y = A('y!gb2')
         v = z3.Const('v!gb2', Val)
         return [('fresh', z3.And(R >= o.alloc, R < h.alloc, h.cls(R) == CLS_LIST)),
-                ('members-are-descendants', FA([v], z3.Implies(h.bag(R, v) > 0, z3.And(is_VRef(v), ANC(v_a(v), c.self))), [h.bag(R, v)])),
+                ('members-are-descendants', FA([v], z3.Implies(h.bag(R, v) > 0, z3.And(is_VRef(v), ANC(v_a(v), c.self), v_a(v) >= 0, v_a(v) < spec_heap(o.schema).alloc)),
+                                               [h.bag(R, v)])),
                 ('every-descendant-is-a-member', FA([y], z3.Implies(ANC(y, c.self), h.cnt(R, y) > 0), [ANC(y, c.self)])),
                 ('self-first', h.at(R, 0) == VRef(c.self))] + old_region_unchanged_all(o, h)
 
     reg.add(Contract(ML + ':LanguageGraphAsset.get_all_subassets', {'self': Obj(LGA)}, returns=List(Obj(LGA)),
                      requires=req, ensures=ens, modifies=LIST_ARRAYS + ('cls', 'own_obj'), allocates=True,
                      loops={0: LoopSpec(inv, term_unverified=True, note='needs a measure over the finite inheritance forest below the asset')}, props=('C15',)))
+
+
+def install_common(reg: Registry):
+    """get_all_common_superassets: the NAMES of the assets that are ancestors (or the asset itself) of both"""
+    def req(c):
+        hs = spec_heap(c.old.schema)
+        return [('ANC.def', z3.And(*anc_axioms(hs))), ('wf_lang.inheritance', wf_inheritance(hs)), ('HS.agree', agree(hs, c.old)),
+                ('HS.objects', z3.And(c.self >= 0, c.self < hs.alloc, c.other >= 0, c.other < hs.alloc)), ('HS.closed', z3.And(*heap_closed(hs)))]
+
+    def ens(c):
+        o, h, R = c.old, c.h, c.res
+        hs = spec_heap(o.schema)
+        k = z3.Const('k!gc', Val)
+        x, y = A('x!gc'), A('y!gc')
+        return [('fresh', z3.And(R >= o.alloc, R < h.alloc, h.cls(R) == CLS_SET)),
+                ('names-of-common-ancestors', FA([k], h.has(R, k) == z3.And(
+                    z3.Exists([x], z3.And(ANC(c.self, x), VStr(hs.f('name', x)) == k), patterns=[ANC(c.self, x)]),
+                    z3.Exists([y], z3.And(ANC(c.other, y), VStr(hs.f('name', y)) == k), patterns=[ANC(c.other, y)])), [h.has(R, k)]))] + old_region_unchanged_all(o, h)
+
+    reg.add(Contract(ML + ':LanguageGraphAsset.get_all_common_superassets', {'self': Obj(LGA), 'other': Obj(LGA)}, returns=T('set', cls='set', elem=T.str),
+                     requires=req, ensures=ens, modifies=LIST_ARRAYS + ('D_has', 'D_size', 'cls', 'own_obj'), allocates=True, props=('C15',),
+                     note='a set of names (asset names are unique in a well-formed language, so a common name is a common ancestor)'))
 
 
 _inst0 = install
@@ -170,3 +194,4 @@ def install(reg: Registry):
     _inst0(reg)
     install_closure_lists(reg)
     install_subassets(reg)
+    install_common(reg)
